@@ -33,9 +33,10 @@ def _is_type_test(test, var):
     return None, None
 
 
-def check_domain(p, folder, fn: FuncInfo, var: str, env=None, depth=0) -> DomainResult:
+def check_domain(p, folder, fn: FuncInfo, var: str, env=None, depth=0, free_guards=False) -> DomainResult:
     """Which integers does fn accept for parameter `var` (other parameters
-    bound to constants in env)?"""
+    bound to constants in env)?  With free_guards a test that does not mention `var` and cannot be folded is taken to go
+    either way (it depends on the other inputs): a value is then rejected when some such choice rejects it."""
     env = dict(env or {})
     if fn.cls is not None:
         sn = astq.self_name(fn)
@@ -84,6 +85,8 @@ def check_domain(p, folder, fn: FuncInfo, var: str, env=None, depth=0) -> Domain
                 else:
                     v = folder.try_eval(ev.node, env, fn.module)
                     if v is UNKNOWN:
+                        if free_guards:
+                            continue
                         raise Undecidable(f'{fn.qname}: cannot fold guard {ast.unparse(ev.node)}')
                     if bool(v) != ev.val:
                         feasible = False
@@ -175,7 +178,7 @@ def check_domain(p, folder, fn: FuncInfo, var: str, env=None, depth=0) -> Domain
 # specs (and each +-1), the powers of two up to 2**32 (+-1), the limits of the documented domain when given.  The function is
 # interpreted on each of them with a concrete argument; a non-integral number, a string and None decide the type test.
 
-_NON_INTS = (1.5, 'x', None)
+_NON_INTS = (1.5, 'x', None, 64.0, 0.0)        # (a float that equals an integer is still not an integer)
 
 
 def package_int_literals(p, prefixes=('mido.messages', 'mido.midifiles')):
